@@ -234,6 +234,14 @@ def oracle(ctx, obs):
         # C20_idler_of_swapped_is_signal: the idler singles of the swapped setup's spectrum are this setup's signal singles at the
         # exchanged frequencies -- compared only where exchanging twice gives this setup back bit for bit (C20_swap_involutive; a
         # setup with a NaN field is not equal to itself and is left to C17)
+        if sw.get("as_specified") is False:
+            # a concrete setup on which the "idler" spectrum is not the spectrum of the setup with signal and idler exchanged: every
+            # idler singles value of this setup is then normalised / evaluated on some other setup
+            ctx.violation("S5", "with_swapped_signal_idler does not exchange signal and idler (beams, waist positions, product polarizations) "
+                          "and keep everything else: the idler singles spectrum is evaluated on a different setup",
+                          {"kind": "swap_not_exchange"}, detail)
+        elif "as_specified" in sw:
+            ctx.count("swap_as_specified")
         if "twice_same" in sw:
             if not sw["twice_same"]:
                 ctx.count("swap_twice_not_bitwise_same")
